@@ -133,19 +133,24 @@ Proof. exact (@case_behaves_as_if_alone). Qed.
 Print Assumptions C17_case_behaves_as_if_alone.
 
 (** In a run of ANY list of cases every case behaves as the reference semantics says of it in the
-    state the program was started in: nothing carries over. *)
-Theorem C17_every_case_as_if_first : forall (R : Type) ec (cases : list (case_sem R)) cw st,
+    state the program was started in: nothing carries over.
+    PARTIAL: proved for the state the model contains (environment dictionary, predefined symbols,
+    timeout, os.environ, cwd, sandboxes and their files, all reached through the handles of
+    processors.py / executor.py).  That exactly_lib keeps no OTHER state across cases is not proved;
+    experiments 2 and 3 of the harness look for such state on every run. *)
+Theorem C17_every_case_as_if_first_partial : forall (R : Type) ec (cases : list (case_sem R)) cw st,
   store_wf st ec -> cw_ok cw ->
   snd (run_cases real_policy false ec cases (cw, st)) = map (spec_obs ec (cw, st)) cases.
 Proof. exact (@every_case_as_if_first). Qed.
-Print Assumptions C17_every_case_as_if_first.
+Print Assumptions C17_every_case_as_if_first_partial.
 
-Theorem C17_outcome_independent_of_predecessors : forall (R : Type) ec (pre : list (case_sem R)) c post cw st,
+(** (PARTIAL in the same sense.) *)
+Theorem C17_outcome_independent_of_predecessors_partial : forall (R : Type) ec (pre : list (case_sem R)) c post cw st,
   store_wf st ec -> cw_ok cw ->
   nth_error (snd (run_cases real_policy false ec (pre ++ c :: post) (cw, st))) (length pre) =
   nth_error (snd (run_cases real_policy false ec [c] (cw, st))) 0.
 Proof. exact (@outcome_independent_of_predecessors). Qed.
-Print Assumptions C17_outcome_independent_of_predecessors.
+Print Assumptions C17_outcome_independent_of_predecessors_partial.
 
 Theorem C17_run_leaves_no_trace : forall (R : Type) ec (cases : list (case_sem R)) cw st,
   store_wf st ec -> cw_ok cw ->
@@ -153,6 +158,29 @@ Theorem C17_run_leaves_no_trace : forall (R : Type) ec (cases : list (case_sem R
   same_pristine ec (cw, st) (cw', st') /\ w_roots (cw_w cw') = w_roots (cw_w cw) /\ cw_files cw' = cw_files cw.
 Proof. exact (@run_leaves_no_trace). Qed.
 Print Assumptions C17_run_leaves_no_trace.
+
+(** The instruction objects parsed from a suite file are shared by all cases of the suite.  If they
+    behave as functions of what the case lets them see (nothing they remember changes what they
+    do), a run with them is a run of independent cases: every theorem above applies to it. *)
+Theorem C17_stateless_suite_objects_independent :
+  forall (R M : Type) ec (cases : list (shared_case R M)) (m0 m : M) cw st,
+  (forall c, In c cases -> forall m', shc_sem c m' = shc_sem c m0) ->
+  snd (fst (run_cases_shared real_policy false ec cases m (cw, st))) =
+  snd (run_cases real_policy false ec (map (fun c => shc_sem c m0) cases) (cw, st)).
+Proof. intros R M ec cases m0 m cw st. exact (stateless_suite_objects_independent ec cases m0 m cw st). Qed.
+Print Assumptions C17_stateless_suite_objects_independent.
+
+(** ... and it rests on that: with a suite instruction object that caches the value it resolved a
+    symbol to, the second case of the suite is judged by the first case's value — independence is
+    false for that variant.  (That the instruction objects of exactly_lib are stateless is NOT a
+    theorem: experiment 2 lets suite-supplied instructions of every phase look at state the cases set
+    differently, on every run.) *)
+Theorem C17_independence_with_caching_suite_objects_refuted :
+  exists (cases : list (shared_case nat (option nat))) c,
+    nth_error (map (@o_result nat) (snd (fst (run_cases_shared real_policy false shared_conf (cases ++ [c]) None (start_world, start_store))))) (length cases)
+    <> nth_error (map (@o_result nat) (snd (fst (run_cases_shared real_policy false shared_conf [c] None (start_world, start_store))))) 0.
+Proof. exact independence_with_caching_suite_objects_refuted. Qed.
+Print Assumptions C17_independence_with_caching_suite_objects_refuted.
 
 (** Non-vacuity: a case that sets variables, defines a symbol, changes directory and writes a file,
     followed by an observer: the observer sees the pristine state; under the copy-less executor it
